@@ -61,10 +61,55 @@ def antisym_lemma(L):
     L.witness(o1, lambda o: o.kind == "return" and o.value.variant == "Less", "cmp can say Less")
 
 
+def ord_tag_lemma(side):
+    """tags are transparent for the order and for equality: cmp / eq of a tagged value answer what they answer
+    for the value itself (otherwise tagged map keys collide and sort leaves tagged elements alone)"""
+    def body(L):
+        from e2.lemmas.c13 import tagged
+        a, b = L.cell("a"), L.cell("b")
+        pc = [untagged(L, a), untagged(L, b)] + [z3.Not(z3.fpIsNaN(real_payload(n))) for n in ("a", "b")]
+        ta = tagged(L, a, "ta")
+        plain = (Ref(Box(a, name="abox")), Ref(Box(b, name="bbox")))
+        tag = (Ref(Box(ta, name="tabox")), plain[1]) if side == 0 else (plain[1], Ref(Box(ta, name="tabox")))
+        if side == 1:
+            plain = (plain[1], plain[0])
+        for nm, pick in (("cmp", lambda n_, f: n_.endswith("::cmp") and "src/cell.rs" in n_),
+                         ("eq", lambda n_, f: n_.endswith("::eq") and "src/cell.rs" in n_ and f.params and strip_ty(f.params[0][1]) == "&cell::Cell")):
+            fn = [f for n_, f in L.ex.funcs.items() if pick(n_, f)][0]
+            o1 = L.run(fn, list(plain), pc, {})
+            o2 = L.run(fn, list(tag), pc, {})
+            L.witness(o2, lambda o: o.kind == "return", nm + " on a tagged operand returns")
+            desc = lambda o: (o.value.variant if isinstance(o.value, Enum) else None)
+
+            def cex(m):
+                la = cell_push_line(m, "a")
+                lb = cell_push_line(m, "b")
+                tl = la.replace("push ", "push tagged ", 1)
+                first, second = (tl, lb) if side == 0 else (lb, tl)
+                return {"lines": ["push map", "push int 1", first, "eval insert", "push int 2", second, "eval insert", "eval length", "stack"],
+                        "expect": [("no_panic",), ("last_result_in", ["ok"]), ("top_in", [("int", "2")])]}
+            for x in o1:
+                for y in o2:
+                    if x.kind != "return" or y.kind != "return":
+                        if y.kind != "return":
+                            L.fail(y, nm + " on a tagged operand must not panic")
+                        continue
+                    if nm == "cmp":
+                        if desc(x) != desc(y):
+                            L.require(y, False, "cmp of a tagged value (operand %d) answers %s where the value itself answers %s" % (side, desc(y), desc(x)),
+                                      extra_pc=list(x.st.pc), cex=cex if desc(y) == "Equal" else None)
+                    else:
+                        L.require(y, x.value.t == y.value.t, "== of a tagged value (operand %d) answers what the value itself answers" % side, extra_pc=list(x.st.pc))
+    return body
+
+
 def run(L, tier, only=None):
     L.ex.path_budget = 4000
     if not only or "ord" in only:
         L.lemma("C12 Ord/Eq consistency of map keys", ord_eq_lemma)
     if not only or "antisym" in only:
         L.lemma("C12 Ord antisymmetry", antisym_lemma)
+    for side in (0, 1):
+        if not only or "tags" in only:
+            L.lemma("C12 order and equality see through tags (operand %d)" % side, ord_tag_lemma(side))
     L.ex.path_budget = None
